@@ -17,6 +17,7 @@ import (
 	"sort"
 	"strings"
 	"sync"
+	"syscall"
 	"time"
 
 	"github.com/AdguardTeam/AdGuardDNS/internal/agdcache"
@@ -326,7 +327,14 @@ type vc13Units struct {
 
 // vc13NewUnits creates the storage and the hash-prefix filters over cache
 // directory dir and server base URL base.  Nothing is loaded yet.
-func vc13NewUnits(dir, base string, el *vc13ErrLog, timeout time.Duration, cacheOn bool) (u *vc13Units, err error) {
+func vc13NewUnits(
+	dir string,
+	base string,
+	el *vc13ErrLog,
+	timeout time.Duration,
+	cacheOn bool,
+	hashMax int,
+) (u *vc13Units, err error) {
 	mustURL := func(p string) (res *url.URL) {
 		res, perr := url.Parse(base + p)
 		if perr != nil {
@@ -371,7 +379,7 @@ func vc13NewUnits(dir, base string, el *vc13ErrLog, timeout time.Duration, cache
 			CacheTTL:        time.Hour,
 			RefreshTimeout:  timeout,
 			CacheCount:      count,
-			MaxSize:         maxSize,
+			MaxSize:         datasize.ByteSize(hashMax),
 		})
 		if err != nil {
 			return nil, fmt.Errorf("hash filter %s: %w", s.name, err)
@@ -486,6 +494,9 @@ type vc13Obs struct {
 
 	// Files maps a cache file name to its content, nil if absent.
 	Files map[string][]byte
+
+	// Inodes maps a cache file name to its inode number.
+	Inodes map[string]uint64
 }
 
 // vc13ConfFor returns the filtering configuration that enables exactly slot s.
@@ -599,8 +610,9 @@ func (u *vc13Units) observeServed(msgs *dnsmsg.Constructor, tried map[string][]i
 }
 
 // vc13ReadFiles reads all cache files under dir.
-func vc13ReadFiles(dir string) (files map[string][]byte, err error) {
+func vc13ReadFiles(dir string) (files map[string][]byte, inodes map[string]uint64, err error) {
 	files = map[string][]byte{}
+	inodes = map[string]uint64{}
 	for _, name := range vc13AllFiles() {
 		b, rerr := os.ReadFile(filepath.Join(dir, name))
 		switch {
@@ -609,14 +621,19 @@ func vc13ReadFiles(dir string) (files map[string][]byte, err error) {
 				b = []byte{}
 			}
 			files[name] = b
+			if fi, serr := os.Stat(filepath.Join(dir, name)); serr == nil {
+				if sys, ok := fi.Sys().(*syscall.Stat_t); ok {
+					inodes[name] = sys.Ino
+				}
+			}
 		case os.IsNotExist(rerr):
 			files[name] = nil
 		default:
-			return nil, rerr
+			return nil, nil, rerr
 		}
 	}
 
-	return files, nil
+	return files, inodes, nil
 }
 
 // vc13Strays returns the names in dir that are not cache files.
